@@ -86,6 +86,9 @@ MC_TRIO = [{"module": "MC_Trio", "quick": "MC_Trio_quick.cfg", "thorough": "MC_T
 
 POOL_STABLE = {"suite": "pool", "trace": "Trace_Pool", "cfg": "Trace_Pool.cfg", "extra": {"kind": "stable"},
                "quick": {"runs": 64, "ops": 30}, "thorough": {"runs": 2000, "ops": 40}, "procs": 8}
+HELPER_SUITE = {"suite": "helper", "trace": "Trace_Helper", "cfg": "Trace_Helper.cfg",
+                "quick": {"runs": 24, "ops": 50}, "thorough": {"runs": 600, "ops": 100}, "procs": 4}
+MC_HELPER = {"module": "MC_Helper", "quick": "MC_Helper.cfg", "thorough": "MC_Helper.cfg", "workers": 2}
 ROUTE_SUITE = {"suite": "route", "trace": "Trace_Router", "cfg": "Trace_Router.cfg",
                "quick": {"runs": 24, "ops": 60}, "thorough": {"runs": 600, "ops": 120}, "procs": 6}
 MC_ROUTER = {"module": "MC_Router", "quick": "MC_Router.cfg", "thorough": "MC_Router.cfg", "workers": 4}
@@ -97,7 +100,7 @@ PROPS = {
     "C04": {"mc": [MC_STABLE] + MC_TRIO, "suites": [MATH_ST3, TRIO_SUITE]},
     "C05": {"mc": [MC_VAULT], "suites": [VAULT_SUITE]},
     "C06": {"mc": [MC_VAULT], "suites": [VAULT_SUITE]},
-    "C07": {"mc": [MC_POOL, MC_VAULT], "suites": [POOL_SUITE, VAULT_SUITE]},
+    "C07": {"mc": [MC_POOL, MC_VAULT], "suites": [POOL_SUITE, VAULT_SUITE, POOL_STABLE, TRIO_SUITE]},
     "C08": {"mc": [MC_LAIR, MC_LAIR_SCHED], "suites": [LAIR_SCHED, LAIR_RANDOM]},
     "C20": {"mc": [_mc_ep("manager", False), _mc_ep("distributor", False), _mc_ep("manager", True), _mc_ep("distributor", True)],
             "suites": [_ep("manager", True), _ep("distributor", True), _ep("manager", False), _ep("distributor", False)]},
@@ -119,7 +122,7 @@ PROPS = {
             "suites": [{"suite": "pipeline", "trace": "Trace_Pipeline", "cfg": "Trace_Pipeline.cfg", "sched_from": "MC_Pipeline",
                         "extra": {"mode": "sched"}, "quick": {"runs": 400}, "thorough": {"runs": 0}, "procs": 8}, DIST_RANDOM],
             "tags": ["C10."]},
-    "C11": {"mc": MC_INC, "suites": [INC_SCHED, INC_RANDOM]},
+    "C11": {"mc": MC_INC + [MC_HELPER], "suites": [INC_SCHED, INC_RANDOM, HELPER_SUITE]},
     "C12": {"mc": MC_INC, "suites": [INC_SCHED, INC_RANDOM]},
     "C13": {"mc": MC_INC, "suites": [INC_SCHED, INC_RANDOM, MATH_WEIGHT]},
     "C14": {"mc": [MC_POOL, MC_VAULT, MC_ROUTER], "suites": [POOL_SUITE, VAULT_SUITE, ROUTE_SUITE, TRIO_SUITE, POOL_STABLE]},
